@@ -128,3 +128,11 @@ def uf(name, ret_type, *args):
     if name not in UF_NATIVE:
         raise NotNative(f"uninterpreted function {name} has no native meaning")
     return UF_NATIVE[name](*args)
+
+
+def fpow(b, n):
+    """b ** n as a number; beyond the float range: +/- infinity (CPython raises OverflowError there)"""
+    try:
+        return b ** n
+    except OverflowError:
+        return float("inf") if (b > 0 or n % 2 == 0) else float("-inf")
